@@ -143,6 +143,31 @@ func outFirstStart() *genetics.Genome {
 	return genetics.NewGenome(1, []*neat.Trait{tr, tr2}, []*network.NNode{out, in1, hid, in2, bias}, genes)
 }
 
+// zeroBasedStart numbers its nodes from 0 (ids are arbitrary non-negative integers: 0 is a node like any other, not "no
+// node") and carries traits whose parameter vectors are NOT of the default length (Trait.Params is a slice of any length; the
+// library's trait operations work on len(Params)).
+func zeroBasedStart() *genetics.Genome {
+	t1 := &neat.Trait{Id: 1, Params: []float64{0.5, 0.25, 0.125}}
+	t2 := &neat.Trait{Id: 2, Params: []float64{1, 2, 3, 4, 5, 6, 7, 8, 9, 10}}
+	bias := network.NewNNode(0, network.BiasNeuron)
+	in1 := network.NewNNode(1, network.InputNeuron)
+	in2 := network.NewNNode(2, network.InputNeuron)
+	out := network.NewNNode(3, network.OutputNeuron)
+	hid := network.NewNNode(4, network.HiddenNeuron)
+	bias.Trait, in1.Trait, out.Trait, hid.Trait = t1, t2, t1, t2
+	for _, n := range []*network.NNode{bias, in1, in2} {
+		n.ActivationType = neatmath.NullActivation
+	}
+	genes := []*genetics.Gene{
+		genetics.NewGeneWithTrait(t1, 0.5, bias, out, false, 1, 0.5),
+		genetics.NewGeneWithTrait(t2, -1.5, in1, hid, false, 2, -1.5),
+		genetics.NewGeneWithTrait(t1, 0.75, in2, out, false, 3, 0.75),
+		genetics.NewGeneWithTrait(t2, 2.5, hid, out, false, 4, 2.5),
+		genetics.NewGeneWithTrait(t1, -0.25, bias, hid, false, 5, -0.25),
+	}
+	return genetics.NewGenome(1, []*neat.Trait{t1, t2}, []*network.NNode{bias, in1, in2, out, hid}, genes)
+}
+
 // wideStart has one input, one bias and eight outputs, every output fed by both: 16 genes leaving only two source
 // nodes, so the toggle mutator can disable all but two of them.
 func wideStart() *genetics.Genome {
@@ -193,6 +218,9 @@ func (l *lineage) startGenome(kind int) (*genetics.Genome, string) {
 	}
 	if kind == -2 {
 		return noTraitStart(), "notrait"
+	}
+	if kind == -4 {
+		return zeroBasedStart(), "zero-based"
 	}
 	if kind == -3 {
 		g := modularStart()
@@ -1038,7 +1066,11 @@ func recordLineage(args []string) int {
 		opts.TraitParamMutProb, opts.TraitMutationPower = []float64{0.5, 0, 1}[(k/3)%3], []float64{1, 0.125}[k%2]
 		opts.MutateLinkWeightsProb = []float64{0.9, 1, 0.2}[(k/2)%3]
 		opts.MutateToggleEnableProb, opts.MutateGeneReenableProb = []float64{0.3, 1, 0}[k%3], []float64{0.3, 0, 1}[(k/2)%3]
-		l.reset(s)
+		if s == 0 && *seed%2 == 1 {
+			l.reset(-4) // every other trace starts with the zero-based genome
+		} else {
+			l.reset(s)
+		}
 		l.twinSplitScenario()
 		l.conflictScenario()
 		l.recurTwinScenario((int(*seed)+s)%2 == 0)
